@@ -9,6 +9,7 @@ witness `n = 5, idx = [3,1], vals = [30,10]`.
 -/
 import Pyiga.Proofs.Restrict
 import Pyiga.Proofs.Slice
+import Pyiga.Proofs.CombineDisjoint
 import Mathlib.Data.List.Sort
 
 namespace Pyiga.Props.C10
@@ -182,6 +183,42 @@ theorem combine_bcs_indices_order_independent (bcs bcs' : List (List Nat × List
 
 example : combineBcs [([4, 1], [40, 10]), ([2, 1], [20, 11])] = .ok ([1, 2, 4], [10, 20, 40]) ∧
     combineBcs [([2, 1], [20, 11]), ([4, 1], [40, 10])] = .ok ([1, 2, 4], [11, 20, 40]) := by
+  decide
+
+/-- ★ **conditions on pairwise disjoint dof sets** (no dof is listed twice at all, e.g. opposite faces of a
+patch): the whole result of `combine_bcs` — indices *and* values — is independent of the order in which the
+conditions are listed.  (With shared dofs only the indices are; see the `example` above.) -/
+theorem combine_bcs_disjoint_order_independent (bcs bcs' : List (List Nat × List β)) (hp : bcs.Perm bcs')
+    (hlen : ∀ bc ∈ bcs, bc.1.length = bc.2.length) (hnd : (bcs.flatMap (·.1)).Nodup)
+    (ui ui' : List Nat) (uv uv' : List β)
+    (h : combineBcs bcs = .ok (ui, uv)) (h' : combineBcs bcs' = .ok (ui', uv')) : ui = ui' ∧ uv = uv' := by
+  have hui := combine_bcs_indices_order_independent bcs bcs' hp ui ui' uv uv' h h'
+  refine ⟨hui, ?_⟩
+  have hlen' : ∀ bc ∈ bcs', bc.1.length = bc.2.length := fun bc hb => hlen bc (hp.mem_iff.mpr hb)
+  have hnd' : (bcs'.flatMap (·.1)).Nodup := (hp.flatMap_right _).nodup_iff.mp hnd
+  obtain ⟨_, e1, e2⟩ := combineBcs_inv h
+  obtain ⟨_, e1', e2'⟩ := combineBcs_inv h'
+  have hpp : (pairsOf bcs).Perm (pairsOf bcs') := hp.flatMap_right _
+  rw [e2, e2']
+  unfold uniqueIndex
+  rw [List.map_map, List.map_map, ← e1, ← e1', ← hui]
+  apply List.map_congr_left
+  intro i hi
+  have hi1 : i ∈ bcs.flatMap (·.1) := mem_unique.mp (e1 ▸ hi)
+  rw [← pairsOf_fst bcs hlen] at hi1
+  obtain ⟨⟨i', v⟩, hm, hiv⟩ := List.mem_map.mp hi1
+  simp only at hiv
+  subst hiv
+  have a := lookup_of_nodup (pairsOf bcs) (by rw [pairsOf_fst bcs hlen]; exact hnd) i' v hm
+  have b := lookup_of_nodup (pairsOf bcs') (by rw [pairsOf_fst bcs' hlen']; exact hnd') i' v (hpp.mem_iff.mp hm)
+  rw [pairsOf_fst bcs hlen, pairsOf_snd bcs hlen] at a
+  rw [pairsOf_fst bcs' hlen', pairsOf_snd bcs' hlen'] at b
+  simp only [Function.comp]
+  rw [a, b]
+
+example : combineBcs [([4, 1], [40, 10]), ([2, 0], [20, 5])] = .ok ([0, 1, 2, 4], [5, 10, 20, 40]) ∧
+    combineBcs [([2, 0], [20, 5]), ([4, 1], [40, 10])] = .ok ([0, 1, 2, 4], [5, 10, 20, 40]) ∧
+    ([([4, 1], [40, 10]), ([2, 0], [20, 5])] : List (List Nat × List Nat)).flatMap (·.1) = [4, 1, 2, 0] := by
   decide
 
 end combine
